@@ -122,6 +122,16 @@ static void aead128a(void) {
     for (off = 0, bad = 0; off + 64 <= n; off += (size_t)1 << 27) { static const unsigned char z[64] = {0}; if (memcmp(buf + off, z, 64) != 0) ++bad; }
     verdict("aead128a-roundtrip", r == 0 && mlen == n && bad == 0, "one-shot decryption accepts and returns the all-zero plaintext");
     munmap(buf, n + 16);
+    {   /* associated data of 2^32+5 bytes: every part of it must reach the tag */
+        size_t adlen = BIG + 5; unsigned char *ad = map(adlen), c0[8 + 16], c1[8 + 16], c2[8 + 16], c3[8 + 16]; size_t l;
+        ascon128a_aead_encrypt(c0, &l, (const unsigned char *)"payload!", 8, ad, adlen, nonce, key);
+        ad[4100] ^= 1; ascon128a_aead_encrypt(c1, &l, (const unsigned char *)"payload!", 8, ad, adlen, nonce, key); ad[4100] ^= 1;
+        ad[adlen - 1] ^= 1; ascon128a_aead_encrypt(c2, &l, (const unsigned char *)"payload!", 8, ad, adlen, nonce, key); ad[adlen - 1] ^= 1;
+        ascon128a_aead_encrypt(c3, &l, (const unsigned char *)"payload!", 8, ad, 5, nonce, key);
+        verdict("aead128a-ad", memcmp(c0, c1, 24) != 0 && memcmp(c0, c2, 24) != 0 && memcmp(c0, c3, 24) != 0,
+                "AD of 2^32+5 bytes: a flipped bit at offset 4100, in the last byte, and the AD cut to 5 bytes each change the result");
+        munmap(ad, adlen);
+    }
 }
 
 /* PRF and HMAC: one call over 2^32+5 bytes against the same bytes in two calls; the last byte must matter */
